@@ -441,20 +441,66 @@ Lemma is_M_rt2 s : is_M s = TextFile.str_eqb s [77%N].
 Proof. unfold is_M, ExpandCorr.str_eqb, chM. destruct s as [|c [|d r]]; reflexivity. Qed.
 
 (* ---- first pass (skip_brute): the probability of the first line whose structure is "M" *)
-Lemma scan_loop {R} (all : list pstr) (body : pstr -> P -> fctl R P)
-      (orelse : rt_file -> P -> (rt_file -> P -> R) -> R) (k : rt_file -> P -> R) :
-  (forall ln t v p, gparse_line ln = Some (v, p) ->
-     body ln t = if is_M v then FBrk true (f_sub fo t p) else FCont t) ->
+Notation R0 := (outcome (list (rt_base P) * bool)).
+
+(* what one line of the first pass does to total_prob ([bs0]: base_structures, not touched yet) *)
+Definition scan_step (bs0 : list (rt_base P)) (ln : pstr) (t : P) : fctl R0 P :=
+  match split_on TAB (rstrip ws ln) with
+  | [] => FRet (Done (bs0, false))
+  | v :: rest =>
+      if is_M v then
+        match rest with
+        | [] => FRet (Done (bs0, false))
+        | f :: _ => match pfloat f with
+                    | None => FRet (Done (bs0, false))
+                    | Some p => FBrk true (f_sub fo t p)
+                    end
+        end
+      else FCont t
+  end.
+
+(* the first pass: it fails (inl) or leaves a total_prob (inr), the file rewound either way *)
+Fixpoint scan_run (bs0 : list (rt_base P)) (rest : list pstr) (t : P) : R0 + P :=
+  match rest with
+  | [] => inr t
+  | ln :: r => match scan_step bs0 ln t with
+               | FCont t' => scan_run bs0 r t'
+               | FBrk _ t' => inr t'
+               | FRet v => inl v
+               end
+  end.
+
+Lemma scan_loop (all : list pstr) bs0 (body : pstr -> P -> fctl R0 P)
+      (orelse : rt_file -> P -> (rt_file -> P -> R0) -> R0) (k : rt_file -> P -> R0) :
+  (forall ln t, body ln t = scan_step bs0 ln t) ->
   (forall f t k', orelse f t k' = k' (rt_seek0 f) t) ->
-  forall rest ls t, parse_all rest = Some ls ->
+  forall rest t,
   rt_for_lines all rest body t orelse k =
-  k (rt_fopen all) (match scan_M ls with Some pm => f_sub fo t pm | None => t end).
+  match scan_run bs0 rest t with inl v => v | inr t' => k (rt_fopen all) t' end.
 Proof.
-  intros Hb He. induction rest as [|ln r IH]; intros ls t Hp; cbn [parse_all] in Hp.
-  - inversion Hp; subst. cbn [rt_for_lines scan_M]. rewrite He. reflexivity.
-  - destruct (gparse_line ln) as [[v p]|] eqn:E; [|discriminate].
-    destruct (parse_all r) as [ls'|]; [|discriminate]. inversion Hp; subst.
-    cbn [rt_for_lines scan_M]. rewrite (Hb _ _ _ _ E). destruct (is_M v); [reflexivity|]. now apply IH.
+  intros Hb He. induction rest as [|ln r IH]; intros t; cbn [rt_for_lines scan_run].
+  - rewrite He. reflexivity.
+  - rewrite Hb. unfold scan_step. destruct (split_on TAB (rstrip ws ln)) as [|v rest]; [reflexivity|].
+    destruct (is_M v); [|apply IH]. destruct rest as [|f rest']; [reflexivity|]. destruct (pfloat f); reflexivity.
+Qed.
+
+Lemma scan_run_parsed bs0 : forall rest ls t, parse_all rest = Some ls ->
+  scan_run bs0 rest t = inr (match scan_M ls with Some pm => f_sub fo t pm | None => t end).
+Proof.
+  induction rest as [|ln r IH]; intros ls t Hp; cbn [parse_all] in Hp.
+  - inversion Hp; subst. reflexivity.
+  - unfold gparse_line in Hp. cbn [scan_run]. unfold scan_step.
+    destruct (split_on TAB (rstrip ws ln)) as [|v [|f rest]]; try discriminate.
+    destruct (pfloat f) as [p|]; [|discriminate].
+    destruct (parse_all r) as [ls'|]; [|discriminate]. inversion Hp; subst. cbn [scan_M].
+    destruct (is_M v); [reflexivity|]. now apply IH.
+Qed.
+
+Lemma scan_run_cases bs0 : forall rest t, scan_run bs0 rest t = inl (Done (bs0, false)) \/ exists t', scan_run bs0 rest t = inr t'.
+Proof.
+  induction rest as [|ln r IH]; intros t; cbn [scan_run]; [right; eauto|]. unfold scan_step.
+  destruct (split_on TAB (rstrip ws ln)) as [|v rest]; [now left|].
+  destruct (is_M v); [|apply IH]. destruct rest as [|f rest']; [now left|]. destruct (pfloat f); [right; eauto|now left].
 Qed.
 
 (* ---- second pass: tokenise, divide, keep *)
@@ -464,28 +510,53 @@ Definition bases_done (r : outcome (list (rt_base P) * bool)) (m : option (list 
   | None => exists bs, r = Done (bs, false)
   end.
 
+(* what one line of the second pass does to base_structures *)
+Definition read_step (skip : bool) (total : P) (ln : pstr) (bs : list (rt_base P)) : fctl R0 (list (rt_base P)) :=
+  match gparse_line ln with
+  | None => FRet (Done (bs, false))
+  | Some (v, p) =>
+      if f_iszero fo total then FRet (Done (bs, false))
+      else match tokenize isalpha v with
+           | None => FRet (Done (bs, false))
+           | Some toks => if negb skip || negb (has_M toks)
+                          then FCont (bs ++ [base_of (f_div fo p total, toks)]) else FCont bs
+           end
+  end.
+
+Fixpoint read_run (skip : bool) (total : P) (rest : list pstr) (bs : list (rt_base P)) : R0 + list (rt_base P) :=
+  match rest with
+  | [] => inr bs
+  | ln :: r => match read_step skip total ln bs with
+               | FCont bs' => read_run skip total r bs'
+               | FBrk _ bs' => inr bs'
+               | FRet v => inl v
+               end
+  end.
+
 Lemma read_loop (all : list pstr) (skip : bool) (total : P)
-      (body : pstr -> list (rt_base P) -> fctl (outcome (list (rt_base P) * bool)) (list (rt_base P)))
-      (k : rt_file -> list (rt_base P) -> outcome (list (rt_base P) * bool)) :
-  (forall ln bs v p, gparse_line ln = Some (v, p) ->
-     body ln bs =
-     if f_iszero fo total then FRet (Done (bs, false))
-     else match tokenize isalpha v with
-          | None => FRet (Done (bs, false))
-          | Some toks => if negb skip || negb (has_M toks)
-                         then FCont (bs ++ [base_of (f_div fo p total, toks)]) else FCont bs
-          end) ->
-  forall rest ls bs, parse_all rest = Some ls ->
+      (body : pstr -> list (rt_base P) -> fctl R0 (list (rt_base P))) (k : rt_file -> list (rt_base P) -> R0) :
+  (forall ln bs, body ln bs = read_step skip total ln bs) ->
+  forall rest bs,
+  rt_for_lines all rest body bs rt_no_else_file k =
+  match read_run skip total rest bs with inl v => v | inr bs' => k {| f_all := all; f_rest := [] |} bs' end.
+Proof.
+  intros Hb. induction rest as [|ln r IH]; intros bs; cbn [rt_for_lines read_run]; [reflexivity|].
+  rewrite Hb. unfold read_step. destruct (gparse_line ln) as [[v p]|]; [|reflexivity].
+  destruct (f_iszero fo total); [reflexivity|]. destruct (tokenize isalpha v) as [toks|]; [|reflexivity].
+  destruct (negb skip || negb (has_M toks)); apply IH.
+Qed.
+
+Lemma read_run_parsed skip total : forall rest ls bs, parse_all rest = Some ls ->
   match m_read_bases skip total ls with
-  | Some l => rt_for_lines all rest body bs rt_no_else_file k = k {| f_all := all; f_rest := [] |} (bs ++ map base_of l)
-  | None => exists bs', rt_for_lines all rest body bs rt_no_else_file k = Done (bs', false)
+  | Some l => read_run skip total rest bs = inr (bs ++ map base_of l)
+  | None => exists bs', read_run skip total rest bs = inl (Done (bs', false))
   end.
 Proof.
-  intros Hb. induction rest as [|ln r IH]; intros ls bs Hp; cbn [parse_all] in Hp.
+  induction rest as [|ln r IH]; intros ls bs Hp; cbn [parse_all] in Hp.
   - inversion Hp; subst. cbn. now rewrite app_nil_r.
   - destruct (gparse_line ln) as [[v p]|] eqn:E; [|discriminate].
     destruct (parse_all r) as [ls'|] eqn:Er; [|discriminate]. inversion Hp; subst.
-    cbn [rt_for_lines read_bases]. rewrite (Hb _ _ _ _ E).
+    cbn [read_run read_bases]. unfold read_step. rewrite E.
     destruct (f_iszero fo total); [eauto|].
     destruct (tokenize isalpha v) as [toks|]; [|eauto].
     destruct (negb skip || negb (has_M toks)).
@@ -493,6 +564,16 @@ Proof.
       destruct (m_read_bases skip total ls') as [l|]; [|exact IH].
       rewrite IH. cbn [map]. now rewrite <- app_assoc.
     + specialize (IH ls' bs eq_refl). destruct (m_read_bases skip total ls') as [l|]; exact IH.
+Qed.
+
+Lemma read_run_unparsable skip total : forall rest bs, parse_all rest = None ->
+  exists bs', read_run skip total rest bs = inl (Done (bs', false)).
+Proof.
+  induction rest as [|ln r IH]; intros bs Hp; cbn [parse_all] in Hp; [discriminate|].
+  cbn [read_run]. unfold read_step. destruct (gparse_line ln) as [[v p]|]; [|eauto].
+  destruct (f_iszero fo total); [eauto|]. destruct (tokenize isalpha v) as [toks|]; [|eauto].
+  assert (Hr : parse_all r = None) by (destruct (parse_all r); [discriminate|reflexivity]).
+  destruct (negb skip || negb (has_M toks)); now apply IH.
 Qed.
 
 (* the tokens the second pass stores are never empty *)
@@ -554,6 +635,95 @@ Lemma load_bases_rewinding skip ls :
   option_map (map (fun b => (fst b, insert_caps (snd b)))) (m_read_bases skip (total_of skip ls) ls).
 Proof. unfold load_bases, total_of. destruct skip; [destruct (scan_M ls)|]; reflexivity. Qed.
 
+(* the translated function, pass by pass: the two passes are [scan_run] / [read_run] (the loop bodies
+   compared with scan_step / read_step test by test), the case-mangling loop is the continuation K3,
+   which on a list of non-empty tokens and with enough fuel inserts the C<n> *)
+Lemma load_base_structures_run fuel dir folder skip lines :
+  bopen (pjoin [dir; folder; grammar_txt]) = Some lines ->
+  exists K3 : list (rt_base P) -> R0,
+    py_bases fuel [] dir skip folder =
+      match (if skip then scan_run [] lines (f_one fo) else inr (f_one fo)) with
+      | inl v => v
+      | inr total => match read_run skip total lines [] with
+                     | inl v => v
+                     | inr bs => K3 bs
+                     end
+      end /\
+    forall l : list (P * list str),
+      (forall p toks, In (p, toks) l -> Forall (fun t => t <> []) toks /\ (2 * length toks < fuel)%nat) ->
+      K3 (map base_of l) = Done (map base_of (map (fun b => (fst b, insert_caps (snd b))) l), true).
+Proof.
+  intros Ho. cbv beta zeta delta [py_load_base_structures].
+  match goal with |- context [rt_open (bopen ?x)] => replace (bopen x) with (Some lines) by (symmetry; exact Ho) end.
+  cbn [rt_open rt_bind].
+  match goal with |- context [rt_join ?f ?K] => set (K2 := K); change (rt_join f K2) with (f K2) end. cbv beta.
+  (* first pass *)
+  match goal with |- exists K3, ?lhs = _ /\ _ =>
+    assert (H1 : lhs = match (if skip then scan_run [] lines (f_one fo) else inr (f_one fo)) with
+                       | inl v => v | inr total => K2 (rt_fopen lines, total) end) end.
+  { destruct skip; [|reflexivity]. unfold rt_for_file, rt_fopen. cbn [f_all f_rest].
+    match goal with |- rt_for_lines _ _ ?b _ ?e ?k = _ => rewrite (scan_loop lines [] b e k) end; [reflexivity| |reflexivity].
+    intros ln t. unfold scan_step. change TAB with 9%N.
+    destruct (split_on 9 (rstrip ws ln)) as [|v rest].
+    - rewrite rt_index_nil. reflexivity.
+    - rewrite rt_index_0. cbn [rt_bind]. rewrite is_M_rt2. destruct (TextFile.str_eqb v [77%N]); [|reflexivity].
+      destruct rest as [|f rest'].
+      + rewrite rt_index_1_short. reflexivity.
+      + rewrite rt_index_1. cbn [rt_bind]. unfold rt_float. destruct (pfloat f); reflexivity. }
+  rewrite H1. clear H1.
+  (* second pass, for whatever total the first pass left *)
+  assert (H2 : exists K3 : list (rt_base P) -> R0,
+            (forall total, K2 (rt_fopen lines, total) =
+                           match read_run skip total lines [] with inl v => v | inr bs => K3 bs end) /\
+            forall l : list (P * list str),
+              (forall p toks, In (p, toks) l -> Forall (fun t => t <> []) toks /\ (2 * length toks < fuel)%nat) ->
+              K3 (map base_of l) = Done (map base_of (map (fun b => (fst b, insert_caps (snd b))) l), true)).
+  { subst K2. cbv beta iota. unfold rt_for_file, rt_fopen. cbn [f_all f_rest].
+    match goal with |- exists K3, (forall total, rt_for_lines _ _ _ _ _ ?k = _) /\ _ =>
+      exists (k {| f_all := lines; f_rest := [] |}) end.
+    split.
+    - intros total.
+      match goal with |- rt_for_lines _ _ ?b _ _ ?k = _ => rewrite (read_loop lines skip total b k) end; [reflexivity|].
+      intros ln bs. unfold read_step, gparse_line. change TAB with 9%N.
+      destruct (split_on 9 (rstrip ws ln)) as [|v [|f r]].
+      + rewrite rt_index_nil. reflexivity.
+      + rewrite rt_index_0. cbn [rt_bind]. rewrite rt_index_1_short. reflexivity.
+      + rewrite rt_index_0. cbn [rt_bind]. rewrite rt_index_1. cbn [rt_bind]. unfold rt_float.
+        destruct (pfloat f) as [p|]; cbn [rt_opt rt_bind]; [|reflexivity].
+        unfold rt_fdiv. destruct (f_iszero fo total); [reflexivity|]. cbn [rt_bind].
+        unfold tokenize.
+        match goal with |- rt_for _ ?cb _ _ ?ck = _ =>
+          pose proof (chars_loop (f_div fo p total) cb (FRet (Done (bs, false))) ck) as Hcl end.
+        match type of Hcl with ?A -> _ => assert (Hcb : A) end.
+        { intros c nb. unfold rt_isalpha. cbn [forallb]. rewrite andb_true_r. destruct (isalpha c).
+          + destruct nb; reflexivity.
+          + unfold upd_repl. destruct (list_last_cases (bs_repl nb)) as [E0|(G & x & E0)]; rewrite E0.
+            * rewrite upd_index_nil. reflexivity.
+            * rewrite upd_index_last, rev_app_distr. cbn. now rewrite rev_involutive. }
+        specialize (Hcl Hcb v []). cbn [rev] in Hcl. rewrite Hcl.
+        match goal with |- match ?a with _ => _ end = match ?b with _ => _ end => change b with a; destruct a as [toks|] end; [|reflexivity].
+        cbn [bs_repl]. rewrite has_M_rt. destruct (negb skip || negb (rt_in [77%N] toks)); reflexivity.
+    - (* case mangling *)
+      intros l Hl. cbv beta.
+      rewrite mut_loop with (l := map base_of l).
+      + cbn [app]. rewrite !map_map. reflexivity.
+      + intros b Hin. apply in_map_iff in Hin. destruct Hin as ([p toks] & <- & Hin).
+        destruct (Hl p toks Hin) as [Hne Hlen].
+        unfold base_of, caps_of. cbn [fst snd bs_prob bs_repl].
+        match goal with |- rt_while _ ?c ?wb _ _ ?wk ?nf = _ =>
+          rewrite (caps_loop c wb wk nf p) with (pre := @nil (list N)) (rest := toks) end; try assumption.
+        * reflexivity.
+        * intros b i. reflexivity.
+        * intros pre c len r. cbn [bs_repl bs_prob]. unfold pstr, Expand.str, TextFile.str in *.
+          rewrite (rt_index_mid pre (c :: len) r). cbn [rt_bind].
+          rewrite (rt_str_index_0 c len). cbn [rt_bind]. unfold rt_join. cbn [TextFile.str_eqb]. rewrite andb_true_r.
+          change chA with 65%N. destruct (N.eqb c 65); [|reflexivity].
+          cbn [rt_bind]. rewrite (rt_slice_tail c len). unfold upd_repl. cbn [bs_repl bs_prob rt_bind app].
+          rewrite (rt_insert_after pre (c :: len) (67%N :: len) r). reflexivity. }
+  destruct H2 as (K3 & HK & Hcaps). exists K3. split; [|exact Hcaps].
+  destruct (if skip then scan_run [] lines (f_one fo) else inr (f_one fo)) as [v|total]; [reflexivity|apply HK].
+Qed.
+
 (* THE TIE, base structures: for every grammar.txt all of whose lines parse (structure TAB
    probability), both values of skip_brute and any fuel above twice the longest structure
    string, the translated _load_base_structures called on an empty list returns what the
@@ -564,67 +734,35 @@ Theorem load_base_structures_eq fuel dir folder skip lines ls :
   Forall (fun l => (2 * length (fst l) < fuel)%nat) ls ->
   bases_done (py_bases fuel [] dir skip folder) (m_load_bases true skip ls).
 Proof.
-  intros Ho Hp Hf. cbv beta zeta delta [py_load_base_structures].
-  match goal with |- context [rt_open (bopen ?x)] => replace (bopen x) with (Some lines) by (symmetry; exact Ho) end.
-  cbn [rt_open rt_bind].
-  match goal with |- bases_done (rt_join ?f ?K) _ => set (K2 := K); change (rt_join f K2) with (f K2) end. cbv beta.
-  (* first pass *)
-  set (total := total_of skip ls).
-  match goal with |- bases_done ?lhs _ => assert (H1 : lhs = K2 (rt_fopen lines, total)) end.
-  { subst total. unfold total_of. destruct skip; [|reflexivity]. unfold rt_for_file, rt_fopen. cbn [f_all f_rest].
-    match goal with |- rt_for_lines _ _ ?b _ ?e ?k = _ => rewrite (scan_loop lines b e k) with (ls := ls) end; try reflexivity; try exact Hp.
-    intros ln t v p E. unfold gparse_line in E. change TAB with 9%N in E.
-    destruct (split_on 9 (rstrip ws ln)) as [|v0 [|f r]]; try discriminate.
-    destruct (pfloat f) as [p0|] eqn:Ef; [|discriminate]. inversion E; subst.
-    rewrite rt_index_0. cbn [rt_bind]. rewrite is_M_rt2. destruct (TextFile.str_eqb v [77%N]); [|reflexivity].
-    rewrite rt_index_1. cbn [rt_bind]. unfold rt_float. rewrite Ef. reflexivity. }
-  rewrite H1. subst K2. cbv beta iota. clear H1.
-  (* second pass *)
-  unfold rt_for_file, rt_fopen. cbn [f_all f_rest].
-  match goal with |- bases_done (rt_for_lines _ _ ?b _ _ ?k) _ =>
-    pose proof (read_loop lines skip total b k) as H2 end.
-  match type of H2 with ?A -> _ => assert (Hb2 : A) end.
-  { intros ln bs v p E. unfold gparse_line in E. change TAB with 9%N in E.
-    destruct (split_on 9 (rstrip ws ln)) as [|v0 [|f r]]; try discriminate.
-    destruct (pfloat f) as [p0|] eqn:Ef; [|discriminate]. inversion E; subst.
-    rewrite rt_index_0. cbn [rt_bind]. rewrite rt_index_1. cbn [rt_bind]. unfold rt_float. rewrite Ef. cbn [rt_opt rt_bind].
-    unfold rt_fdiv. destruct (f_iszero fo total); [reflexivity|]. cbn [rt_bind].
-    unfold tokenize.
-    match goal with |- rt_for _ ?cb _ _ ?ck = _ =>
-      pose proof (chars_loop (f_div fo p total) cb (FRet (Done (bs, false))) ck) as Hcl end.
-    match type of Hcl with ?A -> _ => assert (Hcb : A) end.
-    { intros c nb. unfold rt_isalpha. cbn [forallb]. rewrite andb_true_r. destruct (isalpha c).
-      + destruct nb; reflexivity.
-      + unfold upd_repl. destruct (list_last_cases (bs_repl nb)) as [E0|(G & x & E0)]; rewrite E0.
-        * rewrite upd_index_nil. reflexivity.
-        * rewrite upd_index_last, rev_app_distr. cbn. now rewrite rev_involutive. }
-    specialize (Hcl Hcb v []). cbn [rev] in Hcl. rewrite Hcl.
-    match goal with |- match ?a with _ => _ end = match ?b with _ => _ end => change b with a; destruct a as [toks|] end; [|reflexivity].
-    cbn [bs_repl]. rewrite has_M_rt. destruct (negb skip || negb (rt_in [77%N] toks)); reflexivity. }
-  specialize (H2 Hb2 lines ls [] Hp). rewrite load_bases_rewinding. fold total.
-  destruct (m_read_bases skip total ls) as [l|] eqn:Er; [|exact H2].
-  cbn [option_map bases_done]. rewrite H2. cbn [app].
-  (* case mangling *)
-  rewrite mut_loop with (l := map base_of l).
-  - cbn [app]. rewrite !map_map. reflexivity.
-  - intros b Hin. apply in_map_iff in Hin. destruct Hin as ([p toks] & <- & Hin).
-    assert (Hne : Forall (fun t => t <> []) toks).
-    { pose proof (read_bases_nonempty skip total ls l Er) as Hall. rewrite Forall_forall in Hall. exact (Hall _ Hin). }
-    assert (Hlen : (2 * length toks < fuel)%nat).
-    { destruct (read_bases_tokens skip total ls l Er _ Hin) as (v & p0 & Hi & Ht).
+  intros Ho Hp Hf. destruct (load_base_structures_run fuel dir folder skip lines Ho) as (K3 & -> & Hcaps).
+  rewrite load_bases_rewinding.
+  assert (Ht : (if skip then scan_run [] lines (f_one fo) else inr (f_one fo)) = inr (total_of skip ls)).
+  { unfold total_of. destruct skip; [|reflexivity]. now rewrite (scan_run_parsed [] lines ls _ Hp). }
+  rewrite Ht. set (total := total_of skip ls).
+  pose proof (read_run_parsed skip total lines ls [] Hp) as H2.
+  destruct (m_read_bases skip total ls) as [l|] eqn:Er.
+  - rewrite H2. cbn [app option_map bases_done]. apply Hcaps.
+    intros p toks Hin. split.
+    + pose proof (read_bases_nonempty skip total ls l Er) as Hall. rewrite Forall_forall in Hall. exact (Hall _ Hin).
+    + destruct (read_bases_tokens skip total ls l Er _ Hin) as (v & p0 & Hi & Htk).
       rewrite Forall_forall in Hf. specialize (Hf _ Hi). cbn [fst snd] in *.
-      apply tokenize_aux_length in Ht. cbn [length] in Ht. lia. }
-    unfold base_of, caps_of. cbn [fst snd bs_prob bs_repl].
-    match goal with |- rt_while _ ?c ?wb _ _ ?wk ?nf = _ =>
-      rewrite (caps_loop c wb wk nf p) with (pre := @nil (list N)) (rest := toks) end; try assumption.
-    + reflexivity.
-    + intros b i. reflexivity.
-    + intros pre c len r. cbn [bs_repl bs_prob]. unfold pstr, Expand.str, TextFile.str in *.
-      rewrite (rt_index_mid pre (c :: len) r). cbn [rt_bind].
-      rewrite (rt_str_index_0 c len). cbn [rt_bind]. unfold rt_join. cbn [TextFile.str_eqb]. rewrite andb_true_r.
-      change chA with 65%N. destruct (N.eqb c 65); [|reflexivity].
-      cbn [rt_bind]. rewrite (rt_slice_tail c len). unfold upd_repl. cbn [bs_repl bs_prob rt_bind].
-      rewrite (rt_insert_after pre (c :: len) (67%N :: len) r). reflexivity.
+      apply tokenize_aux_length in Htk. cbn [length] in Htk. lia.
+  - destruct H2 as [bs' H2]. rewrite H2. cbn. eauto.
+Qed.
+
+(* ... and a grammar.txt with a line that does not parse (fewer than two fields, or a second field
+   float() rejects) makes it return False, whatever skip_brute and the fuel are *)
+Theorem load_base_structures_unparsable fuel dir folder skip lines :
+  bopen (pjoin [dir; folder; grammar_txt]) = Some lines ->
+  parse_all lines = None ->
+  exists bs, py_bases fuel [] dir skip folder = Done (bs, false).
+Proof.
+  intros Ho Hp. destruct (load_base_structures_run fuel dir folder skip lines Ho) as (K3 & -> & _).
+  assert (Ht : (if skip then scan_run [] lines (f_one fo) else inr (f_one fo)) = inl (Done ([], false)) \/
+               exists t, (if skip then scan_run [] lines (f_one fo) else inr (f_one fo)) = inr t).
+  { destruct skip; [apply scan_run_cases|right; eauto]. }
+  destruct Ht as [->|[t ->]]; [eauto|].
+  destruct (read_run_unparsable skip t lines [] Hp) as [bs' ->]. eauto.
 Qed.
 
 (* the fuel of the generated `while` (no counterpart in Python) is never the reason of the result *)
